@@ -6,6 +6,8 @@ CONSTANTS
   MaxLen = 2
   BodyClasses = {"any"}
   Flags = {"none"}
+  MaxFrames = 1
+  Threads = {1}
   MaxStall = 0
   Chunking = "max"
   Dev = {}
